@@ -72,6 +72,9 @@ def dump(typ, val, tb, include_local_traceback, include_local_version):
             except AttributeError:
                 # skip this attr. see issue #108
                 continue
+            if callable(attrval):
+                # methods (add_note, ...) are not data: their repr must not shadow the method on the rebuilt exception
+                continue
             if not brine.dumpable(attrval):
                 attrval = repr(attrval)
             attrs.append((name, attrval))
